@@ -27,8 +27,17 @@ its witness: `narrowing_drops_all_digits_refuted`, `rounded_value_exceeds_interm
 Histories: `never_silently_wrong` (induction over `SExpr`, i.e. histories of any length) and its
 corollaries.  Construction from floating point: `float_construct_flag_iff` (the overflow test signals iff
 the real scaled value is outside the declared range; the as-found test of the repaired finding
-`C11.float_at_limit_not_flagged` is refuted by `float_at_limit_refuted`); the rounding that follows is C09's.  Nothing is left unproved; the part of the property that fails is exactly the part the two
-refutations exhibit.
+`C11.float_at_limit_not_flagged` is refuted by `float_at_limit_refuted`); the rounding that follows is C09's.
+Shifts (section 6): `shl_exact_or_signal` / `shl_agrees` (`x << n`, every run-time count `n ≥ 0`: exact or the tag's
+signal with the right polarity, never undefined), `shr_floor` (`x >> n = ⌊x / 2^n⌋`, never a signal),
+`shl_constant_exact`, `shr_constant_floor` (`cnl::constant` counts on a static_integer; the right shift is in range of
+its narrower type outside the **open** class `ShrBelowRange`, refuted by `shr_constant_below_declared_range_refuted`),
+`shift_constant_number_exact` (constant counts on a static_number move the exponent), `shiftAssign_is_history`
+(`<<=`, `>>=`), and the shift nodes of the histories; the as-found left-shift test of the repaired finding
+`C11.shl_to_minus_two_pow_digits_not_flagged` is refuted by `shl_as_found_refuted`.
+Nothing is left unproved except `x >> constant<k>` with `k` *equal* to the digit count (the result is a
+`static_integer<0>`; covered by the correspondence table only); the part of the property that fails is exactly the
+part the three refutations of open classes exhibit.
 -/
 namespace Cnl.C11
 open Cnl Cnl.Spec Cnl.Static Cnl.Rounding Cnl.Elastic
